@@ -295,18 +295,44 @@ func checkLoop(c LoopCase) error {
 		return fmt.Errorf("unknown kind")
 	}
 	p := gen.Program{Src: src, Opts: gen.Opts{While: true, Recursion: true, TopLevelControl: true}}
+	th := &starlark.Thread{Name: "loop"}
 	done := make(chan runResult, 1)
-	go func() { done <- runOn(nil, p, c.Limit, hooks{extraPre: starlark.StringDict{"forever": endless{}}}) }()
-	select {
-	case r := <-done:
-		if !isCancelled(r.err, "too many steps") {
-			return fmt.Errorf("non-terminating program with limit %d: expected cancellation, got %v", c.Limit, r.err)
+	go func() { done <- runOn(th, p, c.Limit, hooks{extraPre: starlark.StringDict{"forever": endless{}}}) }()
+	// The verdict does not depend on wall-clock speed: a watchdog samples the thread's step counter.
+	// Counting beyond the limit is a violation at once; so is a computation that is still running although
+	// its counter has not moved for two minutes (instructions executing without being counted).
+	// Merely being slow (counter still advancing below the limit) is waited for, up to an hour, then inconclusive.
+	var r runResult
+	last, lastChange, start := uint64(0), time.Now(), time.Now()
+wait:
+	for {
+		select {
+		case r = <-done:
+			break wait
+		case <-time.After(200 * time.Millisecond):
+			s := th.ExecutionSteps()
+			if s > c.Limit+1 {
+				return fmt.Errorf("non-terminating program with limit %d is still running at step %d", c.Limit, s)
+			}
+			if s != last {
+				last, lastChange = s, time.Now()
+			} else if time.Since(lastChange) > 120*time.Second {
+				return fmt.Errorf("non-terminating program with limit %d: still running but the step counter has been stuck at %d for 120 s", c.Limit, s)
+			}
+			if time.Since(start) > time.Hour {
+				vk.S.Timeout()
+				return nil
+			}
 		}
-		if r.steps > c.Limit {
-			return fmt.Errorf("limit %d: ExecutionSteps()=%d", c.Limit, r.steps)
-		}
-	case <-time.After(120 * time.Second):
-		return fmt.Errorf("non-terminating program with limit %d did not stop within 120 s", c.Limit)
+	}
+	if (c.Kind == "recursion" || c.Kind == "mutual") && r.err != nil && strings.Contains(r.err.Error(), "stack overflow") && r.steps <= c.Limit {
+		// with a very large limit the frame-depth limit of unbounded recursion is reached first: also a clean failure
+		vk.S.Class("loop:frame-limit-before-step-limit")
+	} else if !isCancelled(r.err, "too many steps") {
+		return fmt.Errorf("non-terminating program with limit %d: expected cancellation, got %v", c.Limit, r.err)
+	}
+	if r.steps > c.Limit {
+		return fmt.Errorf("limit %d: ExecutionSteps()=%d", c.Limit, r.steps)
 	}
 	vk.S.Class("loop:" + c.Kind)
 	vk.S.NonTrivial(fmt.Sprintf("%+v", c))
@@ -532,8 +558,8 @@ func checkAsync(c AsyncCase) error {
 		if !isCancelled(err, "async-stop") {
 			return fmt.Errorf("expected cancellation, got %v", err)
 		}
-	case <-time.After(60 * time.Second):
-		return fmt.Errorf("thread did not stop within 60 s of Cancel (ticks=%d)", ticks.Load())
+	case <-time.After(600 * time.Second):
+		return fmt.Errorf("thread did not stop within 600 s of Cancel (ticks=%d)", ticks.Load())
 	}
 	// afterCancel is set right after Cancel returned; wait for the canceller to publish it
 	for i := 0; afterCancel.Load() < 0 && i < 1000000; i++ {
